@@ -79,6 +79,8 @@ type CtxSpec struct {
 	// FarUs > 0 (cancel, precancel): the context also carries a deadline, that far
 	// away; it is cancelled long before (context.WithTimeout + cancel()).
 	FarUs int `json:"far_us,omitempty"`
+	// Edge (deadline): the operation is started exactly when the deadline passes.
+	Edge bool `json:"edge,omitempty"`
 }
 
 // StreamOp is one consumer operation.
@@ -150,6 +152,11 @@ func (s *StreamScenario) runOps(rw varlink.ReadWriterContext, base context.Conte
 			sim.Rec("ctx.deadline", sf(`{"i":%d,"us":%d}`, i, op.Ctx.Us))
 			dctx = sim.NewCtx(time.Duration(op.Ctx.Us) * time.Microsecond)
 			ctx = dctx
+			if op.Ctx.Edge {
+				// the operation starts at the very instant of the deadline, possibly
+				// before the context has been told
+				sim.Sleep(time.Duration(op.Ctx.Us) * time.Microsecond)
+			}
 		}
 		if op.Ctx.Mode == "precancel" {
 			sim.Rec("cancel.fire", sp(i))
@@ -1101,6 +1108,9 @@ func genC17Stream(seed uint64, tier string) Scenario {
 		}
 		if (op.Ctx.Mode == "cancel" || op.Ctx.Mode == "precancel") && g.Pct(25) {
 			op.Ctx.FarUs = 3600e6
+		}
+		if op.Ctx.Mode == "deadline" && g.Pct(20) {
+			op.Ctx.Edge = true
 		}
 		s.Ops = append(s.Ops, op)
 		if op.Ctx.Mode == "servecancel" {
